@@ -362,10 +362,19 @@ func c09Trace(r *Run, idx int, cfg c09Cfg) {
 			lru.insert(next, int(cost(next)))
 			ds := (i + 1 + rng.Intn(maxd)) % (maxd + 1)
 			ring[ds] = append(ring[ds], next)
+			// reads reach the policy through lossy buffers; on a loaded machine most of them are dropped while the
+			// maintenance goroutine starves and the history this arm is about never forms - pace the phase
+			if i%64 == 0 {
+				cc.wait()
+			}
 		}
 		cc.wait()
 		pc, wc := cc.split()
 		res["window_capacity_after_recency_phase"], res["protected_capacity_after_recency_phase"] = wc, pc
+		r.Count("recency_phases_run", 1)
+		if int(wc)*10 >= cfg.MaxSize*6 {
+			r.Count("recency_phases_that_took_the_window_past_60_percent", 1)
+		}
 	}
 	switch cfg.Workload {
 	case "hot":
